@@ -33,7 +33,7 @@ def handleC04 (j : Json) : Except String Json := do
     if b.global then List.replicate nF ((b.facets.headD none).map toFacet)
     else b.facets.map fun o => o.map toFacet
   let o : Jinns.Holds.Obs04 :=
-    { hasTime := b.hasTime, w := b.w, border := b.border, facets := facets, utab := b.utab,
+    { hasTime := b.hasTime, timesCross := b.grid && b.hasTime, w := b.w, border := b.border, facets := facets, utab := b.utab,
       jtab := b.jtab, value := ← getRat oj "value", otherShape := ← optRat oj "other_shape",
       timeDup := ← optRat oj "time_dup", otherSpec := ← optRat oj "other_spec",
       tol := ← getRat oj "tol" }
